@@ -3,310 +3,13 @@
 use crate::Args;
 use postcard_schema::key::Key;
 use postcard_schema::schema::owned::*;
-use postcard_schema::schema::*;
+
 use rand::{rngs::StdRng, Rng, SeedableRng};
 use serde_json::{json, Value as J};
 use std::io::Write;
 use vcommon::obs::catch;
 
-#[derive(Clone, Debug, PartialEq)]
-pub enum D {
-    Unit,
-    Newtype(Box<T>),
-    Tuple(Vec<T>),
-    Struct(Vec<(String, T)>),
-}
-#[derive(Clone, Debug, PartialEq)]
-pub enum T {
-    Prim(&'static str),
-    Option(Box<T>),
-    Seq(Box<T>),
-    Tuple(Vec<T>),
-    Map(Box<T>, Box<T>),
-    Struct(String, D),
-    Enum(String, Vec<(String, D)>),
-}
-pub const PRIMS: &[&str] = &[
-    "Bool", "I8", "U8", "I16", "I32", "I64", "I128", "U16", "U32", "U64", "U128", "Usize", "Isize", "F32", "F64", "Char", "String", "ByteArray", "Unit", "Schema",
-];
-fn name(r: &mut StdRng) -> String {
-    let n = r.gen_range(0..4);
-    (0..n).map(|_| ['a', 'B', '_', 'é', '€', '😀', '0', 'x'][r.gen_range(0..8)]).collect()
-}
-fn gd(r: &mut StdRng, d: u32, fan: usize) -> D {
-    match r.gen_range(0..4) {
-        0 => D::Unit,
-        1 => D::Newtype(Box::new(gt(r, d, fan))),
-        2 => D::Tuple((0..r.gen_range(0..fan)).map(|_| gt(r, d, fan)).collect()),
-        _ => D::Struct((0..r.gen_range(0..fan)).map(|_| (name(r), gt(r, d, fan))).collect()),
-    }
-}
-pub fn gt(r: &mut StdRng, d: u32, fan: usize) -> T {
-    if d == 0 || r.gen_range(0..10) < 4 {
-        return T::Prim(PRIMS[r.gen_range(0..PRIMS.len())]);
-    }
-    match r.gen_range(0..6) {
-        0 => T::Option(Box::new(gt(r, d - 1, fan))),
-        1 => T::Seq(Box::new(gt(r, d - 1, fan))),
-        2 => {
-            // homogeneous tuples (arrays) as well as mixed ones
-            if r.gen_range(0..3) == 0 {
-                let e = gt(r, d - 1, fan);
-                T::Tuple(vec![e; r.gen_range(0..fan)])
-            } else {
-                T::Tuple((0..r.gen_range(0..fan)).map(|_| gt(r, d - 1, fan)).collect())
-            }
-        }
-        3 => T::Map(Box::new(gt(r, d - 1, fan)), Box::new(gt(r, d - 1, fan))),
-        4 => T::Struct(name(r), gd(r, d - 1, fan)),
-        _ => T::Enum(name(r), (0..r.gen_range(0..fan)).map(|_| (name(r), gd(r, d - 1, fan))).collect()),
-    }
-}
-pub fn b(s: &str) -> J {
-    json!(s.as_bytes())
-}
-pub fn dj(d: &D) -> J {
-    match d {
-        D::Unit => json!({"k":"Unit"}),
-        D::Newtype(t) => json!({"k":"Newtype","t":tj(t)}),
-        D::Tuple(ts) => json!({"k":"Tuple","ts":ts.iter().map(tj).collect::<Vec<_>>()}),
-        D::Struct(fs) => json!({"k":"Struct","fs":fs.iter().map(|(n,t)| json!({"name":b(n),"ty":tj(t)})).collect::<Vec<_>>()}),
-    }
-}
-pub fn tj(t: &T) -> J {
-    match t {
-        T::Prim(k) => json!({ "k": k }),
-        T::Option(x) => json!({"k":"Option","t":tj(x)}),
-        T::Seq(x) => json!({"k":"Seq","t":tj(x)}),
-        T::Tuple(ts) => json!({"k":"Tuple","ts":ts.iter().map(tj).collect::<Vec<_>>()}),
-        T::Map(k, v) => json!({"k":"Map","key":tj(k),"val":tj(v)}),
-        T::Struct(n, d) => json!({"k":"Struct","name":b(n),"data":dj(d)}),
-        T::Enum(n, vs) => json!({"k":"Enum","name":b(n),"variants":vs.iter().map(|(n,d)| json!({"name":b(n),"data":dj(d)})).collect::<Vec<_>>()}),
-    }
-}
-fn ub(j: &J) -> String {
-    String::from_utf8(j.as_array().unwrap().iter().map(|x| x.as_u64().unwrap() as u8).collect()).unwrap()
-}
-pub fn d_from(j: &J) -> D {
-    match j["k"].as_str().unwrap() {
-        "Unit" => D::Unit,
-        "Newtype" => D::Newtype(Box::new(t_from(&j["t"]))),
-        "Tuple" => D::Tuple(j["ts"].as_array().unwrap().iter().map(t_from).collect()),
-        _ => D::Struct(j["fs"].as_array().unwrap().iter().map(|f| (ub(&f["name"]), t_from(&f["ty"]))).collect()),
-    }
-}
-pub fn t_from(j: &J) -> T {
-    let k = j["k"].as_str().unwrap();
-    match k {
-        "Option" => T::Option(Box::new(t_from(&j["t"]))),
-        "Seq" => T::Seq(Box::new(t_from(&j["t"]))),
-        "Tuple" => T::Tuple(j["ts"].as_array().unwrap().iter().map(t_from).collect()),
-        "Map" => T::Map(Box::new(t_from(&j["key"])), Box::new(t_from(&j["val"]))),
-        "Struct" => T::Struct(ub(&j["name"]), d_from(&j["data"])),
-        "Enum" => T::Enum(ub(&j["name"]), j["variants"].as_array().unwrap().iter().map(|v| (ub(&v["name"]), d_from(&v["data"]))).collect()),
-        _ => T::Prim(PRIMS.iter().find(|p| **p == k).expect("prim kind")),
-    }
-}
-fn lk<X>(x: X) -> &'static X {
-    Box::leak(Box::new(x))
-}
-fn ls(s: &str) -> &'static str {
-    Box::leak(s.to_string().into_boxed_str())
-}
-fn lts(ts: &[T]) -> &'static [&'static DataModelType] {
-    Box::leak(ts.iter().map(lt).collect::<Vec<_>>().into_boxed_slice())
-}
-fn ld(d: &D) -> Data {
-    match d {
-        D::Unit => Data::Unit,
-        D::Newtype(t) => Data::Newtype(lt(t)),
-        D::Tuple(ts) => Data::Tuple(lts(ts)),
-        D::Struct(fs) => Data::Struct(Box::leak(fs.iter().map(|(n, t)| lk(NamedField { name: ls(n), ty: lt(t) })).collect::<Vec<_>>().into_boxed_slice())),
-    }
-}
-/// build the compile-time (borrowed) form of a tree at run time
-pub fn lt(t: &T) -> &'static DataModelType {
-    use DataModelType as M;
-    lk(match t {
-        T::Prim(k) => match *k {
-            "Bool" => M::Bool, "I8" => M::I8, "U8" => M::U8, "I16" => M::I16, "I32" => M::I32, "I64" => M::I64, "I128" => M::I128,
-            "U16" => M::U16, "U32" => M::U32, "U64" => M::U64, "U128" => M::U128, "Usize" => M::Usize, "Isize" => M::Isize,
-            "F32" => M::F32, "F64" => M::F64, "Char" => M::Char, "String" => M::String, "ByteArray" => M::ByteArray, "Unit" => M::Unit,
-            _ => M::Schema,
-        },
-        T::Option(x) => M::Option(lt(x)),
-        T::Seq(x) => M::Seq(lt(x)),
-        T::Tuple(ts) => M::Tuple(lts(ts)),
-        T::Map(k, v) => M::Map { key: lt(k), val: lt(v) },
-        T::Struct(n, d) => M::Struct { name: ls(n), data: ld(d) },
-        T::Enum(n, vs) => M::Enum { name: ls(n), variants: Box::leak(vs.iter().map(|(n, d)| lk(Variant { name: ls(n), data: ld(d) })).collect::<Vec<_>>().into_boxed_slice()) },
-    })
-}
-// ---- independent walkers
-pub fn od(d: &OwnedData) -> J {
-    match d {
-        OwnedData::Unit => json!({"k":"Unit"}),
-        OwnedData::Newtype(t) => json!({"k":"Newtype","t":ot(t)}),
-        OwnedData::Tuple(ts) => json!({"k":"Tuple","ts":ts.iter().map(ot).collect::<Vec<_>>()}),
-        OwnedData::Struct(fs) => json!({"k":"Struct","fs":fs.iter().map(|f| json!({"name":b(&f.name),"ty":ot(&f.ty)})).collect::<Vec<_>>()}),
-    }
-}
-pub fn ot(t: &OwnedDataModelType) -> J {
-    use OwnedDataModelType as M;
-    let p = |k: &str| json!({ "k": k });
-    match t {
-        M::Bool => p("Bool"), M::I8 => p("I8"), M::U8 => p("U8"), M::I16 => p("I16"), M::I32 => p("I32"), M::I64 => p("I64"), M::I128 => p("I128"),
-        M::U16 => p("U16"), M::U32 => p("U32"), M::U64 => p("U64"), M::U128 => p("U128"), M::Usize => p("Usize"), M::Isize => p("Isize"),
-        M::F32 => p("F32"), M::F64 => p("F64"), M::Char => p("Char"), M::String => p("String"), M::ByteArray => p("ByteArray"), M::Unit => p("Unit"),
-        M::Schema => p("Schema"),
-        M::Option(x) => json!({"k":"Option","t":ot(x)}),
-        M::Seq(x) => json!({"k":"Seq","t":ot(x)}),
-        M::Tuple(ts) => json!({"k":"Tuple","ts":ts.iter().map(ot).collect::<Vec<_>>()}),
-        M::Map { key, val } => json!({"k":"Map","key":ot(key),"val":ot(val)}),
-        M::Struct { name, data } => json!({"k":"Struct","name":b(name),"data":od(data)}),
-        M::Enum { name, variants } => json!({"k":"Enum","name":b(name),"variants":variants.iter().map(|v| json!({"name":b(&v.name),"data":od(&v.data)})).collect::<Vec<_>>()}),
-    }
-}
-pub fn bd(d: &Data) -> J {
-    match d {
-        Data::Unit => json!({"k":"Unit"}),
-        Data::Newtype(t) => json!({"k":"Newtype","t":bt(t)}),
-        Data::Tuple(ts) => json!({"k":"Tuple","ts":ts.iter().map(|t| bt(t)).collect::<Vec<_>>()}),
-        Data::Struct(fs) => json!({"k":"Struct","fs":fs.iter().map(|f| json!({"name":b(f.name),"ty":bt(f.ty)})).collect::<Vec<_>>()}),
-    }
-}
-/// walk the borrowed (compile-time) schema
-pub fn bt(t: &DataModelType) -> J {
-    use DataModelType as M;
-    let p = |k: &str| json!({ "k": k });
-    match t {
-        M::Bool => p("Bool"), M::I8 => p("I8"), M::U8 => p("U8"), M::I16 => p("I16"), M::I32 => p("I32"), M::I64 => p("I64"), M::I128 => p("I128"),
-        M::U16 => p("U16"), M::U32 => p("U32"), M::U64 => p("U64"), M::U128 => p("U128"), M::Usize => p("Usize"), M::Isize => p("Isize"),
-        M::F32 => p("F32"), M::F64 => p("F64"), M::Char => p("Char"), M::String => p("String"), M::ByteArray => p("ByteArray"), M::Unit => p("Unit"),
-        M::Schema => p("Schema"),
-        M::Option(x) => json!({"k":"Option","t":bt(x)}),
-        M::Seq(x) => json!({"k":"Seq","t":bt(x)}),
-        M::Tuple(ts) => json!({"k":"Tuple","ts":ts.iter().map(|t| bt(t)).collect::<Vec<_>>()}),
-        M::Map { key, val } => json!({"k":"Map","key":bt(key),"val":bt(val)}),
-        M::Struct { name, data } => json!({"k":"Struct","name":b(name),"data":bd(data)}),
-        M::Enum { name, variants } => json!({"k":"Enum","name":b(name),"variants":variants.iter().map(|v| json!({"name":b(v.name),"data":bd(&v.data)})).collect::<Vec<_>>()}),
-    }
-}
-
-// ---- single-node mutants: path / name / order / element kind
-fn mutants_d(d: &D, out: &mut Vec<D>) {
-    match d {
-        D::Unit => out.push(D::Tuple(vec![])),
-        D::Newtype(t) => {
-            let mut ms = vec![];
-            mutants(t, &mut ms);
-            out.extend(ms.into_iter().map(|m| D::Newtype(Box::new(m))));
-            out.push(D::Tuple(vec![(**t).clone()]));
-        }
-        D::Tuple(ts) => {
-            for i in 0..ts.len() {
-                let mut ms = vec![];
-                mutants(&ts[i], &mut ms);
-                for m in ms.into_iter().take(3) {
-                    let mut c = ts.clone();
-                    c[i] = m;
-                    out.push(D::Tuple(c));
-                }
-            }
-            if ts.len() >= 2 && ts[0] != ts[1] {
-                let mut c = ts.clone();
-                c.swap(0, 1);
-                out.push(D::Tuple(c));
-            }
-        }
-        D::Struct(fs) => {
-            for i in 0..fs.len() {
-                let mut c = fs.clone();
-                c[i].0.push('q');
-                out.push(D::Struct(c));
-                let mut ms = vec![];
-                mutants(&fs[i].1, &mut ms);
-                for m in ms.into_iter().take(2) {
-                    let mut c = fs.clone();
-                    c[i].1 = m;
-                    out.push(D::Struct(c));
-                }
-            }
-            if fs.len() >= 2 && fs[0] != fs[1] {
-                let mut c = fs.clone();
-                c.swap(0, 1);
-                out.push(D::Struct(c));
-            }
-        }
-    }
-}
-pub fn mutants(t: &T, out: &mut Vec<T>) {
-    match t {
-        T::Prim(k) => {
-            let i = PRIMS.iter().position(|p| p == k).unwrap();
-            out.push(T::Prim(PRIMS[(i + 1) % PRIMS.len()]));
-        }
-        T::Option(x) => {
-            out.push(T::Seq(x.clone()));
-            let mut ms = vec![];
-            mutants(x, &mut ms);
-            out.extend(ms.into_iter().map(|m| T::Option(Box::new(m))));
-        }
-        T::Seq(x) => {
-            out.push(T::Option(x.clone()));
-            let mut ms = vec![];
-            mutants(x, &mut ms);
-            out.extend(ms.into_iter().map(|m| T::Seq(Box::new(m))));
-        }
-        T::Tuple(ts) => {
-            let mut ds = vec![];
-            mutants_d(&D::Tuple(ts.clone()), &mut ds);
-            for d in ds {
-                if let D::Tuple(c) = d {
-                    out.push(T::Tuple(c));
-                }
-            }
-        }
-        T::Map(k, v) => {
-            if k != v {
-                out.push(T::Map(v.clone(), k.clone()));
-            }
-            let mut ms = vec![];
-            mutants(k, &mut ms);
-            out.extend(ms.into_iter().take(2).map(|m| T::Map(Box::new(m), v.clone())));
-            let mut ms = vec![];
-            mutants(v, &mut ms);
-            out.extend(ms.into_iter().take(2).map(|m| T::Map(k.clone(), Box::new(m))));
-        }
-        T::Struct(n, d) => {
-            let mut ds = vec![];
-            mutants_d(d, &mut ds);
-            out.extend(ds.into_iter().map(|m| T::Struct(n.clone(), m)));
-            // a rename of the type itself: the key must NOT change (the specification decides)
-            out.push(T::Struct(format!("{n}R"), d.clone()));
-        }
-        T::Enum(n, vs) => {
-            for i in 0..vs.len() {
-                let mut c = vs.clone();
-                c[i].0.push('q');
-                out.push(T::Enum(n.clone(), c));
-                let mut ds = vec![];
-                mutants_d(&vs[i].1, &mut ds);
-                for m in ds.into_iter().take(3) {
-                    let mut c = vs.clone();
-                    c[i].1 = m;
-                    out.push(T::Enum(n.clone(), c));
-                }
-            }
-            if vs.len() >= 2 && vs[0] != vs[1] {
-                let mut c = vs.clone();
-                c.swap(0, 1);
-                out.push(T::Enum(n.clone(), c));
-            }
-            out.push(T::Enum(format!("{n}R"), vs.clone()));
-        }
-    }
-}
+pub use vcommon::stree::*;
 
 /// everything the harness can observe about one tree
 pub fn tree_event(t: &T, path: &str, kind: &str) -> J {
